@@ -263,6 +263,7 @@ class Body:
         self.is_pub = raw.get("pub")
         self.is_async = raw.get("async")
         self.upvars = raw.get("upvars", [])
+        self.generics = raw.get("generics", [])
         self._succ = None
         self._pred = None
         self._calls = None
